@@ -19,6 +19,10 @@ Executable small-step model of the completion protocol in `modules/modules.go`, 
   `Online` (after the start routine's goroutine has sent its result) **or back to `Offline` when the start routine
   failed** (error or panic; nothing else is reset: the context of the failed attempt stays live, its work keeps
   running), `prep()` (status `Dead → Preparing → Offline` around the prep routine).
+* `runServiceWorker`: the restart loop (`swReturn`, `swRerun`, `swExit`) and the **back-off wait between two runs** of a
+  failing function (`swBackoff`, ended by its timer `swTimer` — back to the loop head, where `IsStopping()` is read —
+  or by the cancellation of the context `m.Ctx` it read when it entered the select, `swCtxDone`); the worker stays
+  counted in `workerCnt` during the wait.
 * contexts: `m.Ctx` is replaced only by `start()`; the model numbers the contexts of a module (`gen`: 0 = the one
   made by `initNewModule`, +1 per `start()`), keeps the cancellation state of the current one (`ctx`) and the list of
   earlier ones that were replaced while still live (`oldLive`). Work functions and later observations name the
@@ -75,6 +79,9 @@ structure St where
   swTop0 : Nat     -- service workers whose function returned while the stop flag was clear, at the head of their
                    --   restart loop (they may still read `IsStopping() = false` and run the function again)
   swTop1 : Nat     -- … whose function returned while the stop flag was set (their `IsStopping()` read is true)
+  swBk : List Nat  -- service workers waiting in the back-off `select` between two runs of their function (they are
+                   --   still counted in `workerCnt`): one entry per waiter = the number of the context whose `Done()`
+                   --   channel its select waits on (`m.Ctx` is read when the select is entered)
   gen : Nat        -- number of the module's current context `m.Ctx` (0 = made by `initNewModule`, +1 per `start()`)
   oldLive : List Nat -- earlier contexts that were replaced by `start()` while not cancelled
 deriving DecidableEq, Repr
@@ -85,7 +92,7 @@ def init : St :=
   { status := statusDead, flag := 0, ctrl := 0, ctx := 0, completed := 1, closed := 0, dbl := 0,
     aW := 0, bW := 0, aT := 0, bT := 0, aM := 0, bM := 0,
     k0 := 0, kf := 0, k1 := 0, k2 := 0, k3 := 0, k4 := 0, k5 := 0, k6 := 0, k7 := 0, kd := 0, lk := 0,
-    spc := 0, fnpc := 0, tmo := 0, swTop0 := 0, swTop1 := 0, gen := 0, oldLive := [] }
+    spc := 0, fnpc := 0, tmo := 0, swTop0 := 0, swTop1 := 0, swBk := [], gen := 0, oldLive := [] }
 
 /-- … after `prep()` (no work started meanwhile). -/
 def prepped : St := { init with status := statusOffline }
@@ -136,8 +143,20 @@ inductive Act
   | cCas (ok : Bool) | cClose | cUnlock
   | swReturn                   -- runServiceWorker: the worker function returned (any result), back in the restart loop
   | swRerun                    -- … `IsStopping()` read false, the function is run again (ErrRestartNow / back-off elapsed)
-  | swExit (late : Bool)       -- … the loop is left (nil / context.Canceled / `IsStopping()` / `Ctx.Done()`), `dec` follows
+  | swExit (late : Bool)       -- … the loop is left (nil / context.Canceled / `IsStopping()`), `dec` follows
+  | swBackoff (late : Bool)    -- … the function's error is neither nil / Canceled / ErrRestartNow (or it panicked): `failCnt++`,
+                               --   the back-off `select { case <-time.After(sleepFor): case <-m.Ctx.Done(): return }` is entered
+  | swTimer (g : Nat)          -- … the back-off timer of a waiter (holding context `g`) fires: back to the head of the loop
+  | swCtxDone (g : Nat)        -- … `case <-m.Ctx.Done(): return` of a waiter holding context `g`: the loop is left, `dec` follows
 deriving DecidableEq, Repr
+
+/-- The back-off wait of `runServiceWorker` is ended by the cancellation of the module context: the `select` it
+    waits in (regenerated from `modules/worker.go`: `PB.Gen.StopProto.backoffWait`, one string per case, fail closed on
+    any other way of waiting between two runs) has a case `<-m.Ctx.Done()` whose body returns. -/
+def backoffEndsOnCancel : Bool := backoffWait.contains "<-m.Ctx.Done():return"
+
+/-- … and the only other way out is the back-off timer -/
+def backoffHasTimer : Bool := backoffWait.contains "<-time.After(sleepFor):"
 
 /-- the Go counters -/
 def St.w (s : St) : Nat := s.aW + s.bW
@@ -225,6 +244,17 @@ def step (s : St) : Act → Option St
   | .swRerun => if 0 < s.swTop0 then some { s with swTop0 := s.swTop0 - 1 } else none
   | .swExit false => if 0 < s.swTop0 then some { s with swTop0 := s.swTop0 - 1 } else none
   | .swExit true => if 0 < s.swTop1 then some { s with swTop1 := s.swTop1 - 1 } else none
+  | .swBackoff false => if 0 < s.swTop0 then some { s with swTop0 := s.swTop0 - 1, swBk := s.gen :: s.swBk } else none
+  | .swBackoff true => if 0 < s.swTop1 then some { s with swTop1 := s.swTop1 - 1, swBk := s.gen :: s.swBk } else none
+  | .swTimer g =>
+    if backoffHasTimer = true ∧ s.swBk.contains g = true then
+      if s.flag = 1 then some { s with swBk := s.swBk.erase g, swTop1 := s.swTop1 + 1 }
+      else some { s with swBk := s.swBk.erase g, swTop0 := s.swTop0 + 1 }
+    else none
+  | .swCtxDone g =>
+    if backoffEndsOnCancel = true ∧ s.swBk.contains g = true ∧ s.genCancelled g = true then
+      some { s with swBk := s.swBk.erase g }
+    else none
 
 /-- run a list of actions; `none` = some action was not enabled (the acceptor's `reject`). -/
 def run (s : St) : List Act → Option St
